@@ -68,7 +68,7 @@ def list_docs(tier: str) -> Iterator[dict[str, Any]]:
     th = tier == "thorough"
     markers = ["-", "1.", "task", "3)"] if th else ["-", "1.", "task"]
     markers3 = ["-", "1."]
-    wraps = ["top", "quote", "footnote"] if th else ["top", "quote"]
+    wraps = ["top", "quote", "footnote", "footnote1"] if th else ["top", "quote"]
     combos: list[tuple[list[str], ...]] = []
     for a in ITEM_PATTERNS:
         combos.append((a, ["P"]))
@@ -86,6 +86,8 @@ def list_docs(tier: str) -> Iterator[dict[str, Any]]:
                     if not th and extra and (wrap != "top" or marker != "-"):
                         continue  # the rarer item patterns: one marker, top level only, in the quick tier
                     if th and wrap == "footnote" and (marker not in ("-", "1.") or len(items) == 3):
+                        continue
+                    if wrap == "footnote1" and (marker != "-" or len(items) == 3 or items not in ((["P"], ["P"]), (["P", "C"], ["P"]), (["C"], ["P"]))):
                         continue  # footnote wrap: two markers, two-item lists (sized so the thorough tier ends within the hour)
                     key = f"list/{wrap}/{marker}/{'loose' if loose else 'tight'}/" + "|".join("".join(i) for i in items)
                     if key in seen:
@@ -97,6 +99,10 @@ def list_docs(tier: str) -> Iterator[dict[str, Any]]:
                     if wrap == "quote":
                         lines = [("> " + ln) if ln else ">" for ln in lines]
                     elif wrap == "footnote":
+                        # the list follows a first paragraph of the definition (a list that starts on the label line itself is
+                        # read unreliably by Marko's footnote extension: class footnote-first-line-list, kept as "footnote1")
+                        lines = [f"[^n]: {_tok()}", ""] + [("    " + ln) if ln else "" for ln in lines]
+                    elif wrap == "footnote1":
                         lines = ["[^n]: " + lines[0]] + [("    " + ln) if ln else "" for ln in lines[1:]]
                     yield dict(key=key, fam="list", special=f"{marker}/{'|'.join(''.join(i) for i in items)}", doc="\n".join(lines) + "\n", authored_loose=loose)
 
